@@ -14,8 +14,8 @@ RULE = ("programs drawn by Hypothesis from the conforming-program grammar of DES
 @composite
 def program(d, small=False):
     if d.bool(0.35):
-        return prog.gen_h(d)
-    return prog.gen_c(d, {"small": small} if small else None)
+        return prog.decorate(prog.gen_h(d), d)
+    return prog.decorate(prog.gen_c(d, {"small": small} if small else None), d)
 
 
 def nontrivial(p):
